@@ -122,6 +122,17 @@ def oracle(case):
             r2 = proxy.ping_kw(a=v)
             backs.append(("keyword value received", got[1]))
             backs.append(("value returned in a list", r2[0]))
+            # the same two calls as entries of one batch
+            mc = J.MultiCall(proxy, cfg)
+            mc.ping(v)
+            mc.ping_kw(a=v)
+            res = list(mc())
+            if len(got) != 4 or len(res) != 2:
+                fail("C07/rpc-not-called", "a batch of two calls invoked the callables %d times and gave %d results" % (len(got) - 2, len(res)))
+            backs.append(("value received by the remote callable from a batch entry", got[2]))
+            backs.append(("keyword value received from a batch entry", got[3]))
+            backs.append(("value returned to the caller of a batch", res[0]))
+            backs.append(("value returned in a list by a batch entry", res[1][0]))
     except Violation:
         raise
     except Exception as ex:
